@@ -1,5 +1,5 @@
 (* C17_Properties.v — the property theorems of C17 and nothing else (over Op_Model). *)
-From Verif Require Import Common Op_Model Op_Corr Op_Proofs C17_Spec C17_Proofs.
+From Verif Require Import Common Op_Model Op_Corr Op_Proofs C17_Spec C17_Proofs C17_Locks C17_LocksProofs.
 
 (* the property's decidable predicate (C17_Spec.P: after the Stop step no execution is new, a
    worker is stopped exactly when its queue is not in a handler; before it no worker is
@@ -79,6 +79,35 @@ Example C17_idle_hyp_met :
   let s := exec cfg [Boot; Tick 1]%N init in
   sched_tasks cfg (sched_on s) 999 = [] /\ queues s <> [].
 Proof. vm_compute. split; [reflexivity | discriminate]. Qed.
+
+(* ---- the locks on the way of Shutdown() (C17_Locks: the program is translated from the current
+   source on every run and checked by lock_ok): for every program that passes the check, every pool
+   of threads running its functions and every schedule, a thread that stands at an operation that
+   may never return (an API call, a channel, a hook process) holds no lock - so Shutdown(), which has
+   to get through mgr.m and tqs.m before it reaches the queues, never waits for such a thread *)
+Theorem C17_blocked_threads_hold_no_lock : forall (p : program) (fs : list func) (sched : list nat),
+  lock_ok p = true -> (forall f, In f fs -> In f (map snd p)) ->
+  forall t, In t (sys_run (map start fs) sched) -> at_block t = true -> th_held t = [].
+Proof. exact blocked_threads_hold_no_lock. Qed.
+Print Assumptions C17_blocked_threads_hold_no_lock.
+
+Theorem C17_lock_holders_can_move : forall (p : program) (fs : list func) (sched : list nat) (l : N),
+  lock_ok p = true -> (forall f, In f fs -> In f (map snd p)) ->
+  forall t, In t (sys_run (map start fs) sched) -> holds_any l t = true -> at_block t = false.
+Proof. exact lock_holders_can_move. Qed.
+Print Assumptions C17_lock_holders_can_move.
+
+(* non-vacuity: AddMonitor as the code has it (list the objects, THEN lock, insert, unlock) beside
+   PauseHandleEvents passes; AddMonitor holding the lock across the listing does not; and in a run of
+   the former in which AddMonitor stands at its API call, Shutdown's read lock is free *)
+Example C17_locks_hyp_met :
+  let add := [LStep; LBlock 0; LLock 1; LStep; LUnlock 1] in
+  let pause := [LRLock 1; LStep; LRUnlock 1] in
+  lock_ok [(1, add); (2, pause)] = true /\
+  lock_ok [(1, [LLock 1; LStep; LBlock 0; LStep; LUnlock 1]); (2, pause)] = false /\
+  let ts := sys_run (map start [add; pause]) [0%nat; 1%nat] in
+  map at_block ts = [true; false] /\ map (holds_any 1) ts = [false; true].
+Proof. vm_compute. repeat split; reflexivity. Qed.
 
 (* non-vacuity: shutdown with one execution open and a task waiting; afterwards a tick
    arrives and the execution ends: nothing else starts *)
